@@ -53,6 +53,11 @@ CORPUS_THOROUGH = CORPUS_QUICK + [
 
 ERR_CLASSES = {'crc': ('ELFError',), 'size': ('ELFError',), 'type': ('ELFError',), 'nofile': ('ELFError',), 'short': ('ELFError',),
                'magic': ('ELFError', 'AssertionError'), 'zsize': ('ELFError', 'AssertionError'), 'zshort': ('ELFError', 'AssertionError')}
+# A reader may decompress lazily: then the rejection surfaces while the content is read - but as the data path's own error,
+# not as a parse error over accepted garbage.  A checksum cannot be checked late.
+LATE_CLASSES = {'crc': (), 'nofile': (), 'size': ('ELFCompressionError',), 'type': ('ELFCompressionError',), 'short': ('ELFCompressionError',),
+                'magic': ('ELFCompressionError', 'AssertionError'), 'zsize': ('ELFCompressionError', 'AssertionError'),
+                'zshort': ('ELFCompressionError', 'AssertionError')}
 
 
 # ------------------------------------------------------------------ dumps
@@ -388,9 +393,8 @@ def run_spec_cases(run, res):
                 bad('error_class', {k: ERR_CLASSES[k] for k in kinds}, o['exc'])
             elif 'exc' not in o:
                 lc = o['late_exc'].split(':')[1]
-                if not any(lc in ('ELFError', 'ELFCompressionError', 'ELFParseError') or (lc == 'AssertionError' and 'AssertionError' in ERR_CLASSES[k])
-                           for k in kinds):
-                    bad('error_class', {k: ERR_CLASSES[k] for k in kinds}, o['late_exc'])
+                if not any(lc in LATE_CLASSES[k] for k in kinds):
+                    bad('rejected', outcome, 'accepted by get_dwarf_info; later: ' + o['late_exc'])
             continue
         d = o['dump']
         if outcome == 'nodwarf':
@@ -731,8 +735,8 @@ def _objcopy_variants(run, data, base, table, use_loader, ref):
 
 # ------------------------------------------------------------------ entry point
 def check(run):
-    run.rule = ('cases = (a) final states of the Container loading-pipeline machine: encoding plan (13: plain, SHF_COMPRESSED whole/partial/'
-                'multi-block/bad size/bad type, .zdebug whole/multi-block/mixed/bad magic/bad size/truncated) x class/byte order x DWARF '
+    run.rule = ('cases = (a) final states of the Container loading-pipeline machine: encoding plan (15: plain, SHF_COMPRESSED whole/partial/'
+                'multi-block/declared size too big/too small/bad type, .zdebug whole/multi-block/mixed/bad magic/size too big/too small/truncated) x class/byte order x DWARF '
                 'version/format x .eh_frame, link families (stripped+.gnu_debuglink right/wrong CRC, unstripped with link, .gnu_debugaltlink, '
                 '.debug_sup with is_supplementary 0/1, stripped->debug->supplementary chains) x encodings of every file x loader x follow_links; '
                 '(b) corpus file x harness-side transform (gABI / .zdebug at zlib levels, decompression, split + link, supplementary pairs'
